@@ -428,6 +428,22 @@ func checkC03(ix *index, add addFn) {
 	// that content that has no first transmission yet; unattributable ones
 	// are re-subscriptions.
 	firstTx := map[int]int{}
+	firsts := map[string]int{}
+	// re-subscriptions are single-filter SUBSCRIBEs generated by the client after a
+	// reconnect without a kept session; where they can occur, SUBSCRIBE packets
+	// are not attributed to application calls by content
+	resubPossible := false
+	{
+		n := 0
+		for _, c := range ix.connInfos() {
+			if c.accepted {
+				n++
+				if n > 0 && (!c.sp || sc.Cfg.AlwaysResub) && c.k > 1 {
+					resubPossible = true
+				}
+			}
+		}
+	}
 	for _, i := range ix.tx {
 		r := &ix.tr[i]
 		switch r.P.Type {
@@ -438,17 +454,53 @@ func checkC03(ix *index, add addFn) {
 				}
 			}
 		case TSubscribe, TUnsubscribe:
+			key := subsKey(r.P.Subs)
+			if r.P.Type == TUnsubscribe {
+				key = "U:" + strings.Join(r.P.Topics, ",")
+			}
+			// a packet whose content equals an earlier, still unacknowledged
+			// packet is a retransmission of that one, not a first transmission
+			acked := 0
+			for _, j := range ix.tx {
+				if j >= i {
+					break
+				}
+				q := &ix.tr[j]
+				if q.P.Type != r.P.Type {
+					continue
+				}
+				k2 := subsKey(q.P.Subs)
+				ackT := TSubAck
+				if q.P.Type == TUnsubscribe {
+					k2 = "U:" + strings.Join(q.P.Topics, ",")
+					ackT = TUnsubAck
+				}
+				if k2 != key {
+					continue
+				}
+				if a := ix.rxAfter(q.Conn, ackT, q.P.ID, j); a >= 0 && a < i {
+					acked++
+				}
+			}
+			if firsts[key] > acked {
+				continue
+			}
+			if r.P.Type == TSubscribe && resubPossible {
+				continue // cannot be told apart from a re-subscription by content
+			}
 			for _, e := range order {
 				o := sc.Ops[e.op]
 				if _, seen := firstTx[e.op]; seen {
 					continue
 				}
-				if r.P.Type == TSubscribe && o.Kind == "subscribe" && subsKey(o.Subs) == subsKey(r.P.Subs) && ix.ops[e.op].inv < i {
+				if r.P.Type == TSubscribe && o.Kind == "subscribe" && subsKey(o.Subs) == key && ix.ops[e.op].inv < i {
 					firstTx[e.op] = i
+					firsts[key]++
 					break
 				}
-				if r.P.Type == TUnsubscribe && o.Kind == "unsubscribe" && strings.Join(o.Topics, ",") == strings.Join(r.P.Topics, ",") && ix.ops[e.op].inv < i {
+				if r.P.Type == TUnsubscribe && o.Kind == "unsubscribe" && "U:"+strings.Join(o.Topics, ",") == key && ix.ops[e.op].inv < i {
 					firstTx[e.op] = i
+					firsts[key]++
 					break
 				}
 			}
@@ -502,22 +554,27 @@ func checkC03(ix *index, add addFn) {
 
 func checkC12(ix *index, add addFn) {
 	type first struct {
-		p      *Pkt
-		relOK  bool
-		relID  uint16
+		p     *Pkt
+		relOK bool
 	}
 	seen := map[string]*first{}
 	byID := map[uint16][]string{}
-	for _, i := range ix.tx {
+	for i := range ix.tr {
 		r := &ix.tr[i]
+		if r.Kind != "tx" && r.Kind != "txfail" {
+			continue
+		}
+		attempt := r.Kind == "txfail"
 		switch r.P.Type {
 		case TPublish:
 			tok := tokenOf(r.P.Pay)
-			if tok == "" || strings.HasPrefix(tok, "in") {
+			if tok == "" {
 				continue
 			}
 			f := seen[tok]
 			if f == nil {
+				// the first attempt to send (a Write call was made, whether or not
+				// the bytes arrived) is the first transmission
 				if r.P.Dup {
 					add("first-dup0", fmt.Sprintf("first transmission of %s has DUP=1 (conn %d)", tok, r.Conn), nil)
 				}
@@ -537,10 +594,13 @@ func checkC12(ix *index, add addFn) {
 			if r.P.ID != f.p.ID || r.P.Topic != f.p.Topic || r.P.Pay != f.p.Pay || r.P.QoS != f.p.QoS || r.P.Retain != f.p.Retain {
 				add("same-fields", fmt.Sprintf("retransmission of %s differs: first %s, now %s", tok, f.p, r.P), nil)
 			}
-			if f.relOK {
+			if f.relOK && !attempt {
 				add("no-publish-after-pubrel", fmt.Sprintf("PUBLISH for %s transmitted on conn %d after its PUBREL was sent", tok, r.Conn), nil)
 			}
 		case TPubRel:
+			if attempt {
+				continue // never reached the wire
+			}
 			// attribute to the most recent QoS 2 message that used this id
 			toks := byID[r.P.ID]
 			if len(toks) == 0 {
@@ -552,7 +612,4 @@ func checkC12(ix *index, add addFn) {
 			}
 		}
 	}
-	// "only PUBREL with the same identifier": a message in PUBREL phase must
-	// not be followed by PUBRELs of an id it never had — covered by same-fields
-	// (ids never change) plus the attribution above.
 }
